@@ -55,7 +55,10 @@ GOOD = ['1+2*3', 'SUM(1,2,3)', 'IF(1<2,"y","n")', '"a"&"b"', 'aa+bb', 'REC(aa,2)
         'AVERAGE(1,0)', 'LARGE({1.0,0.0},1)', 'LARGE({1,0},1)', 'SUM(1.0,0.0)', 'SUM(TRUE,FALSE)', 'MAX(0.0,-1)', 'MAX(0,-1)', 'MEDIAN(0.0)', 'MEDIAN(FALSE)',
         'ABS(1.0)', 'ABS(TRUE)', 'ABS(1)', 'INT(1.0)', 'ROUND(TRUE,0)', 'MAXA(1.0,0.0)=TRUE', 'MEDIAN(1.0)&""', 'MEDIAN(TRUE)&""', 'MEDIAN(1)&""']
 BAD = ['1+', '(1', 'NOPE()', 'nope', '1/0', '#N/A', '#REF!+1', 'SUM(', '"abc', '1 2', u'\xe9', '@', 'IF(', '))', 'BOOM()', 'XL()', 'A1:', 'LISTEN', '1+BOOM()+2', 'SUM(1,XL())',
-       'SQRT(-1)', 'VLOOKUP(1,2)', 'INDEX(LL,99)', 'MATCH(99,LL,0)', 'DATE("x",1,1)', '{1,2', 'F(', 'RAISECELL']
+       'SQRT(-1)', 'VLOOKUP(1,2)', 'INDEX(LL,99)', 'MATCH(99,LL,0)', 'DATE("x",1,1)', '{1,2', 'F(', 'RAISECELL',
+       # failing calls under something that observes or discards errors (debug on / off must agree here too)
+       'IFERROR(BOOM(),0)', 'ISERROR(BOOM())', 'IF(TRUE,"n/a",BOOM())', 'IFERROR(XL(),0)', 'ISERROR(XL())', 'ISNA(XL())', 'IFERROR(SQRT(-1),0)',
+       'IFERROR(nope,0)', 'IFERROR(NOPE(),0)', 'IFERROR(1/0,BOOM())', 'IF(FALSE,BOOM(),2)', 'ISERROR(RAISECELL)', 'IFERROR(LISTEN,0)']
 
 
 def build(debug):
